@@ -12,6 +12,7 @@ import (
 	"reflect"
 	"strconv"
 	"strings"
+	"unsafe"
 
 	"github.com/ecodeclub/ekit"
 	"verifharness/reg"
@@ -331,6 +332,11 @@ func as(av ekit.AnyValue, t string, held any) string {
 		}
 	case "str":
 		v, err = w(av.AsString())
+		if hb, isB := held.([]byte); isB && err == nil && len(hb) > 0 {
+			if rs, _ := v.(string); len(rs) > 0 && unsafe.StringData(rs) == unsafe.SliceData(hb) {
+				return "ok str-ALIAS-of-held-bytes " + hex.EncodeToString([]byte(rs))
+			}
+		}
 		if err == nil {
 			// strconv.FormatFloat is outside the model (RFmtFloat w bits): instantiated by FormatFloat(x, 'f', 10, w)
 			want, isF := "", true
@@ -354,7 +360,15 @@ func as(av ekit.AnyValue, t string, held any) string {
 			}
 		}
 	case "bytes":
-		v, err = w(av.AsBytes())
+		b, berr := av.AsBytes()
+		v, err = b, berr
+		// memory behaviour (the model's byte strings are values): AsBytes of a held STRING must return fresh storage
+		// (a zero-copy view of the string's bytes lets a write through the result change — or fault on — the held
+		// string); of a held []byte it returns the held slice itself (that is what the code does and documents).
+		if sv, isStr := held.(string); isStr && berr == nil && len(b) > 0 && len(sv) > 0 &&
+			unsafe.SliceData(b) == unsafe.StringData(sv) {
+			return "ok bytes-ALIAS-of-held-string " + hex.EncodeToString(b)
+		}
 	default:
 		panic("aty " + t)
 	}
